@@ -15,7 +15,7 @@ PROC_FULL = list(range(1, 25)) + [32, 47, 64, 100, 256]
 PROC_BASIC = [16, 64, 256]
 HL_FULL = list(range(0, 17)) + [24, 32, 64, 256]
 HL_BASIC = [256]
-QCAPS = [1, 2, 3, 4, 10]
+QCAPS = [1, 2, 3, 4, 10, 300]
 
 INT_RANGE = {
     "u8": (0, 2**8 - 1), "i8": (-2**7, 2**7 - 1),
